@@ -57,6 +57,8 @@ def candidates(rng):
         ('diagonal-permuted-axes', dperm), ('diagonal-permuted-axes-inverse', dperm.I),
         ('identity', IdentityOperator(tree)), ('homothety', gen.mk_homothety(rng, tree)), ('diagonal', d),
         ('diagonal-pytree', dt), ('diagonal-inverse', d.I), ('sum', AdditionOperator([d, t, gen.mk_homothety(rng, s)])),
+        # the same object several times in one sum (A + A, the symmetrisation S + S.T of a symmetric S, A + B + A)
+        ('sum-repeated-operand', d + d), ('sum-symmetrised', t + t.T), ('sum-repeated-apart', AdditionOperator([d, t, d])),
         ('block-row', BlockRowOperator({'y': d, 'x': t})), ('block-diag', BlockDiagonalOperator([d, [t, dt]])),
         ('block-col', BlockColumnOperator((d, t))), ('ravel', gen.mk_ravel(rng, s2)), ('reshape', gen.mk_reshape(rng, s2)),
         ('toeplitz', t), ('toeplitz-batched', tb), ('lazy-inverse', InverseOperator(t)), ('qurot-transpose', r.T),
